@@ -190,7 +190,7 @@ Theorem C17_scalar_amplitude_divided :
   forall (P : plane) (s v : Qc), p_amp P = FScalar v ->
   (forall P', plane_rescale P s = Ok P' -> o_amp P' = OScalar (v / s)) /\
   (forall a Pa' a' i j u, (forall y x, qget a y x = v) ->
-     plane_rescale (mkPlane (FArr a) (p_opd P) (p_mask P) (p_ps P)) s = Ok Pa' ->
+     plane_rescale (mkPlane (FArr a) (p_opd P) (p_mask P) (p_ps P) (p_tilt P)) s = Ok Pa' ->
      o_amp Pa' = OArr a' -> oget a' i j = Known u -> u = v / s).
 Proof. exact scalar_amplitude_divided. Qed.
 Print Assumptions C17_scalar_amplitude_divided.
@@ -208,28 +208,52 @@ Theorem C17_result_depends_on_current_samples_only :
 Proof. exact result_depends_on_current_samples_only. Qed.
 Print Assumptions C17_result_depends_on_current_samples_only.
 
+(* glue: the Tilt terms book-kept by fit_tilt are carried over unchanged (they are angles: optics, not sampling), and
+   plane._slice is, for the mask / for every segment, the TIGHT bounding box (r0, r1, c0, c1) of the set samples of the
+   rescaled mask: inside the array, containing every set sample, with a set sample in its first and last row and column *)
+Theorem C17_tilt_and_slice :
+  forall (P : plane) (s : Qc) (P' : oplane), plane_rescale P s = Ok P' ->
+  o_tilt P' = p_tilt P /\
+  (forall a', o_mask P' = OMono a' -> exists b, o_slice P' = [b] /\
+     let '(r0, r1, c0, c1) := b in
+     (0 <= r0 < r1)%Z /\ (r1 <= onr a')%Z /\ (0 <= c0 < c1)%Z /\ (c1 <= onc a')%Z /\
+     (forall i j, (0 <= i < onr a')%Z -> (0 <= j < onc a')%Z -> is_one (oget a' i j) = true -> (r0 <= i < r1)%Z /\ (c0 <= j < c1)%Z) /\
+     row_has a' r0 = true /\ row_has a' (r1 - 1) = true /\ col_has a' c0 = true /\ col_has a' (c1 - 1) = true) /\
+  (forall l', o_mask P' = OCube l' -> length (o_slice P') = length l' /\
+     Forall2 (fun a' b => let '(r0, r1, c0, c1) := b in
+       (0 <= r0 < r1)%Z /\ (r1 <= onr a')%Z /\ (0 <= c0 < c1)%Z /\ (c1 <= onc a')%Z /\
+       (forall i j, (0 <= i < onr a')%Z -> (0 <= j < onc a')%Z -> is_one (oget a' i j) = true -> (r0 <= i < r1)%Z /\ (c0 <= j < c1)%Z) /\
+       row_has a' r0 = true /\ row_has a' (r1 - 1) = true /\ col_has a' c0 = true /\ col_has a' (c1 - 1) = true) l' (o_slice P')).
+Proof. exact tilt_and_slice. Qed.
+Print Assumptions C17_tilt_and_slice.
+Example C17_tilt_and_slice_nonvacuous :
+  let a := mkQ 4 4 (fun i j => if ((1 <=? i) && (i <=? 2) && (j =? 1))%Z then 1 else Q2Qc 0) false in
+  let P := mkPlane (FScalar 1) (FScalar (Q2Qc 0)) (MMono a) None [(zq 3, zq 5)] in
+  exists P', plane_rescale P (zq 2) = Ok P' /\ o_tilt P' = [(zq 3, zq 5)] /\ o_slice P' = [(1, 5, 1, 3)%Z].
+Proof. exact ex_tilt_and_slice. Qed.
+
 (* ================= lentil.rescale with all its arguments (shape, mask, unitary) ================= *)
 
 (* output shape for the three forms of [shape] (None: the image's shape; scalar a: (a, a); pair), each times the scale and
-   rounded up; the call never refuses a float mask; an explicit mask of integer/bool dtype is refused with ValueError
-   (finding C17-explicit-int-mask: the code is modelled as it is); at default arguments it is the function Plane.rescale uses *)
-Theorem C17_rescale_general_shape_and_refusal :
+   rounded up; the call never refuses; at default arguments it is the function Plane.rescale uses; an explicit mask or an
+   image of integer/bool dtype gives exactly the result of its float cast *)
+Theorem C17_rescale_general_shape :
   forall (o : interp) (img : qarr) (s : Qc) (sh : shapearg) (pm : option (qarr * Qc)) (u : bool),
-  rescale_gen o img s sh pm true u = Err ValueError /\
-  (forall r, rescale_gen o img s sh pm false u = Ok r ->
+  (forall r, rescale_gen o img s sh pm u = Ok r ->
      match sh with
      | ShNone => onr r = rescale_shape (qnr img) s /\ onc r = rescale_shape (qnc img) s
      | ShScalar a => onr r = rescale_shape a s /\ onc r = rescale_shape a s
      | ShPair a b => onr r = rescale_shape a s /\ onc r = rescale_shape b s
      end) /\
-  (exists r, rescale_gen o img s sh pm false u = Ok r) /\
-  rescale_gen o img s ShNone None false false = util_rescale o img s.
-Proof. exact general_shape_and_refusal. Qed.
-Print Assumptions C17_rescale_general_shape_and_refusal.
-Example C17_rescale_general_shape_and_refusal_nonvacuous :
-  (exists r, rescale_gen Cubic ex_img (zq 3 / zq 2) (ShScalar 5) None false false = Ok r /\ onr r = 8%Z /\ onc r = 8%Z) /\
-  (exists r, rescale_gen Nearest0 ex_img (zq 3 / zq 2) (ShPair 2 5) None false false = Ok r /\ onr r = 3%Z /\ onc r = 8%Z) /\
-  rescale_gen Cubic ex_img (zq 2) ShNone None true false = Err ValueError.
+  (exists r, rescale_gen o img s sh pm u = Ok r) /\
+  rescale_gen o img s ShNone None false = util_rescale o img s /\
+  (forall mk eps, rescale_gen o img s sh (Some (as_float mk, eps)) u = rescale_gen o img s sh (Some (mk, eps)) u) /\
+  rescale_gen o (as_float img) s sh pm u = rescale_gen o img s sh pm u.
+Proof. exact general_shape. Qed.
+Print Assumptions C17_rescale_general_shape.
+Example C17_rescale_general_shape_nonvacuous :
+  (exists r, rescale_gen Cubic ex_img (zq 3 / zq 2) (ShScalar 5) None false = Ok r /\ onr r = 8%Z /\ onc r = 8%Z) /\
+  (exists r, rescale_gen Nearest0 ex_img (zq 3 / zq 2) (ShPair 2 5) None false = Ok r /\ onr r = 3%Z /\ onc r = 8%Z).
 Proof. exact ex_general_shape. Qed.
 
 (* explicit mask (same shape as the image), not unitary: whatever [shape] is, the sampling grid is centred on the IMAGE
@@ -237,7 +261,7 @@ Proof. exact ex_general_shape. Qed.
    below eps (also every negative value); where the four mask samples around a non-node coordinate vanish the sample is 0 *)
 Theorem C17_rescale_explicit_mask_spec :
   forall (o : interp) (img : qarr) (s : Qc) (sh : shapearg) (mk : qarr) (eps : Qc) (r : oarr),
-  rescale_gen o img s sh (Some (mk, eps)) false false = Ok r ->
+  rescale_gen o img s sh (Some (mk, eps)) false = Ok r ->
   qnr mk = qnr img -> qnc mk = qnc img ->
   (forall i j y x, coord (qnr img) (onr r) s i = zq y -> (0 <= y < qnr img)%Z ->
                    coord (qnc img) (onc r) s j = zq x -> (0 <= x < qnc img)%Z ->
@@ -248,7 +272,7 @@ Theorem C17_rescale_explicit_mask_spec :
 Proof. exact explicit_mask_spec. Qed.
 Print Assumptions C17_rescale_explicit_mask_spec.
 Example C17_rescale_explicit_mask_spec_nonvacuous :
-  exists r, rescale_gen Cubic ex_img (zq 2) ShNone (Some (ex_mask, Q2Qc (1 # 1000))) false false = Ok r /\
+  exists r, rescale_gen Cubic ex_img (zq 2) ShNone (Some (ex_mask, Q2Qc (1 # 1000))) false = Ok r /\
     oget r 2 2 = Known (zq 12) /\ oget r 0 2 = Known (Q2Qc 0) /\ oget r 2 0 = Known (Q2Qc 0) /\ oget r 3 3 = Unknown.
 Proof. exact ex_explicit_mask. Qed.
 
@@ -258,7 +282,7 @@ Proof. exact ex_explicit_mask. Qed.
    unpinned interpolant) nothing is pinned *)
 Theorem C17_rescale_unitary :
   forall (o : interp) (img : qarr) (s : Qc) (sh : shapearg) (pm : option (qarr * Qc)) (r : oarr),
-  rescale_gen o img s sh pm false true = Ok r ->
+  rescale_gen o img s sh pm true = Ok r ->
   let N := onr r in let M := onc r in
   let pre := fun i j => pre_sample o img (coord (qnr img) N s i) (coord (qnc img) M s j) in
   match unitary_factor img N M pre with
@@ -271,7 +295,7 @@ Theorem C17_rescale_unitary :
 Proof. exact unitary_result. Qed.
 Print Assumptions C17_rescale_unitary.
 Example C17_rescale_unitary_nonvacuous :
-  exists r, rescale_gen Cubic ex_img (zq 3 / zq 2) ShNone None false true = Ok r /\ oget r 0 0 = Unknown.
+  exists r, rescale_gen Cubic ex_img (zq 3 / zq 2) ShNone None true = Ok r /\ oget r 0 0 = Unknown.
 Proof. exact ex_unitary_poisoned. Qed.
 
 (* the detector.pixelate configuration: cubic, s = 1/k with k dividing both sizes, default mask, unitary: every output
@@ -280,7 +304,7 @@ Theorem C17_rescale_unit_fraction_unitary :
   forall (img : qarr) (k N M : Z) (r : oarr), (0 < k)%Z -> qnr img = (k * N)%Z -> qnc img = (k * M)%Z ->
   let t := qsum2 N M (fun i j => qget img (k * i) (k * j)) in
   t <> 0 ->
-  rescale_gen Cubic img (/ zq k) ShNone None false true = Ok r ->
+  rescale_gen Cubic img (/ zq k) ShNone None true = Ok r ->
   onr r = N /\ onc r = M /\
   (forall i j, (0 <= i < N)%Z -> (0 <= j < M)%Z ->
      oget r i j = Known (qget img (k * i) (k * j) * (qsum2 (qnr img) (qnc img) (qget img) / t))) /\
@@ -289,7 +313,7 @@ Theorem C17_rescale_unit_fraction_unitary :
 Proof. exact unit_fraction_unitary. Qed.
 Print Assumptions C17_rescale_unit_fraction_unitary.
 Example C17_rescale_unit_fraction_unitary_nonvacuous :
-  exists r, rescale_gen Cubic ex_img (/ zq 2) ShNone None false true = Ok r /\ onr r = 2%Z /\ onc r = 2%Z /\
+  exists r, rescale_gen Cubic ex_img (/ zq 2) ShNone None true = Ok r /\ onr r = 2%Z /\ onc r = 2%Z /\
     oget r 0 0 = Known (zq 1 * (zq 136 / zq 24)) /\ oget r 1 1 = Known (zq 11 * (zq 136 / zq 24)).
 Proof. exact ex_unit_fraction_unitary. Qed.
 
@@ -298,7 +322,7 @@ Proof. exact ex_unit_fraction_unitary. Qed.
    amplitude'[0,0] = a[0,0]/s, amplitude'[0,3] = a[0,2]/s; sample (1,1) is not pinned; the mask is *)
 Example C17_nonvacuous :
   let a := mkQ 2 4 (fun i j => zq (1 + i + 2 * j)) false in
-  let P := mkPlane (FArr a) (FScalar (Q2Qc 0)) (MMono a) (Some (1, 1)) in
+  let P := mkPlane (FArr a) (FScalar (Q2Qc 0)) (MMono a) (Some (1, 1)) [] in
   exists P' a' m', plane_rescale P (zq 3 / zq 2) = Ok P' /\ o_amp P' = OArr a' /\ o_mask P' = OMono m' /\
     onr a' = 3%Z /\ onc a' = 6%Z /\ o_ps P' = Some (zq 2 / zq 3, zq 2 / zq 3) /\
     oget a' 0 0 = Known (zq 1 / (zq 3 / zq 2)) /\ oget a' 0 3 = Known (zq 5 / (zq 3 / zq 2)) /\
